@@ -109,3 +109,79 @@ def read_all(s):
 
 def view(r):
     return (r['version'] + b' ' + r['status'] + b' ', header_lines(r), r['body'] if r['body'] is not None else b'')
+
+
+# ---------------------------------------------------------------- request grammar recogniser (C02)
+def _hx(b):
+    return bytes(b).hex() or '-'
+
+
+def _is_utf8(b):
+    try:
+        bytes(b).decode('utf-8')
+        return True
+    except UnicodeDecodeError:
+        return False
+
+
+def recognise_stream(s, limit, buf=1024):
+    """what a connection must deliver for the byte stream s read in any way: a list of rendered
+    requests followed, if the stream cannot be continued, by the rendered first error"""
+    import p_headers
+    out = []
+    pos = 0
+
+    def take_line(pos):
+        w = s[pos:pos + buf]
+        i = w.find(b'\r\n')
+        if i >= 0:
+            return ('line', s[pos:pos + i], pos + i + 2)
+        if len(s) - pos >= buf:
+            return ('toolong', w, pos)
+        return ('more', None, pos)
+    while True:
+        kind, line, npos = take_line(pos)
+        if kind == 'more':
+            return out
+        if kind == 'toolong':
+            return out + ['Err(ParseError(InvalidRequest))']
+        pos = npos
+        parts = line.split(b' ', 2)
+        if len(parts) < 3:
+            return out + ['Err(ParseError(InvalidRequest))']
+        m, u, v = parts
+        if m not in (b'GET', b'PUT', b'PATCH'):
+            return out + ['Err(ParseError(InvalidHttpMethod))']
+        if u == b'':
+            return out + ['Err(ParseError(InvalidUri(empty)))']
+        if not _is_utf8(u):
+            return out + ['Err(ParseError(InvalidUri(utf8)))']
+        if v not in (b'HTTP/1.0', b'HTTP/1.1'):
+            return out + ['Err(ParseError(InvalidHttpVersion))']
+        h = p_headers.Hdrs()
+        while True:
+            kind, line, npos = take_line(pos)
+            if kind == 'more':
+                return out
+            if kind == 'toolong':
+                raw = line
+                if _is_utf8(raw) and b'\xef\xbf\xbd' not in raw:
+                    return out + ['Err(ParseError(HeaderError(SizeLimitExceeded(%s))))' % _hx(raw)]
+                return out + ['Err(ParseError(HeaderError(SizeLimitExceeded(lossy))))']
+            pos = npos
+            if line == b'':
+                break
+            e = p_headers.parse_line(h, line)
+            if e is not None and 'UnsupportedValue' not in e:
+                return out + ['Err(ParseError(%s))' % e]
+        body = 'none'
+        if h.cl != 0:
+            if h.cl > limit:
+                return out + ['Err(ParseError(SizeLimitExceeded(%d,%d)))' % (limit, h.cl)]
+            if len(s) - pos < h.cl:
+                return out
+            body = 'some:' + _hx(s[pos:pos + h.cl])
+            pos += h.cl
+        out.append('REQ m=%s u=%s v=%s %s body=%s' % (
+            {b'GET': 'Get', b'PUT': 'Put', b'PATCH': 'Patch'}[m], _hx(u),
+            'Http10' if v == b'HTTP/1.0' else 'Http11', h.render(), body))
